@@ -598,7 +598,9 @@ func (r *c08Run) peek(h recovery.CheckpointHandle) (out string) {
 			}
 		}()
 		fs := newC08FS(r.base.WithWorkingDir(r.dir), true)
-		db := dkv.New(r.opts(fs, 1<<30))
+		o := r.opts(fs, 1<<30)
+		o.MaxWALSize = 0 // default (64 MB): the observer must never rotate, its flush tasks would sit in the global queue
+		db := dkv.New(o)
 		if err := db.Start([]recovery.CheckpointHandle{h}); err != nil {
 			res <- "err " + c08Short(err.Error())
 			return
